@@ -126,6 +126,11 @@ def uterm(v):
             v.ghost["_uterm"] = t
             v.ghost["_uterm_of"] = v._term
         return t
+    if isinstance(v, Small):
+        fl = v.flat()
+        return _uf("small%d" % len(fl), len(fl))(*[uterm(x) for x in fl]) if fl else z3.Const("py:emptyarray", USORT)
+    if type(v).__name__ == "Fraction":
+        return F_REAL2U(z3.RealVal(str(v)))
     if isinstance(v, float):
         return F_REAL2U(z3.RealVal(repr(v)))
     if isinstance(v, z3.ExprRef) and v.sort() == V.REAL:
@@ -884,6 +889,19 @@ def uxda_rename(ex, obj, args, kwargs, node, env, fr):
     o.fields.update(obj.fields)
     o.fields["dims"] = tuple(m.get(d, d) for d in obj.fields["dims"])
     return o
+
+
+@method("SymDict", "call:get")
+def symdict_get(ex, obj, args, kwargs, node, env, fr):
+    """mapping.get(key, default=None) with a literal key: forks on the key's presence"""
+    k = args[0]
+    dflt = args[1] if len(args) > 1 else kwargs.get("default")
+    if not isinstance(k, str):
+        raise Unsupported("get() with a non-literal key")
+    p = obj.present(k)
+    if ex.decide(p):
+        return ex.load_subscript(obj, (k,), node, env, fr)
+    return dflt
 
 
 @method("SymDict", "call:copy")
